@@ -51,3 +51,22 @@ package main
 //@ loop 1
 //@ invariant[C19] gc("wr", client) - w0 == gc("rdbytes", server) - c0 && gc("rdbytes", server) >= c0
 //@ invariant[C19] forall(p, w0, gc("wr", client), gb("wr", client)[p] == in[c0 + p - w0])
+
+// The queue updater: every message received from the parser is added to the queue as it is (the same
+// value, all fields), in order; hist is the ghost history of additions, fixed by the channel's feed.
+//@ func keepCircularQueueUpdated
+//@ ghostparam hist (Array Int S_github_com_goblimey_go_ntrip_rtcm_handler_Message)
+//@ requires messageChan != nil && cq != nil
+//@ let ni0 = cq.NextIndex
+//@ let r0 = recvd(messageChan)
+//@ requires[C18,C19] QInv(cq) && cq.NextIndex + feedlen(messageChan) < 4611686018427387904 && recvd(messageChan) <= feedlen(messageChan)
+//@ requires[C18,C19] forallint(k, has(cq.Items, k) ==> cq.Items[k] == hist[k])
+//@ requires[C18,C19] forall(j, recvd(messageChan), feedlen(messageChan), hist[cq.NextIndex + j - recvd(messageChan)] == feed(messageChan)[j])
+//@ modifies cq.NextIndex, mapof(cq.Items), recv(messageChan)
+//@ ensures[C18,C19] recvd(messageChan) == feedlen(messageChan) && QInv(cq) && cq.NextIndex == ni0 + recvd(messageChan) - r0
+//@ ensures[C18,C19] forallint(k, has(cq.Items, k) ==> cq.Items[k] == hist[k])
+//@ loop 1
+//@ invariant[C18,C19] messageChan != nil && cq != nil && recvd(messageChan) >= r0 && recvd(messageChan) <= feedlen(messageChan)
+//@ invariant[C18,C19] QInv(cq) && cq.NextIndex == ni0 + recvd(messageChan) - r0
+//@ invariant[C18,C19] forallint(k, has(cq.Items, k) ==> cq.Items[k] == hist[k])
+//@ decreases[C18,C19] feedlen(messageChan) - recvd(messageChan)
